@@ -35,3 +35,20 @@ def gen_bm25(items):
             raise Fail('src/postings/skip.rs: decode_block_wand_max_tf changed shape')
         return D('BLOCK_WAND_TF_SATURATION', 255, 'tf >= 255 is stored as 255 and read back as u32::MAX')
     items.append(bw)
+    def dismax():
+        path = 'src/query/score_combiner.rs'
+        text = strip_comments(src(path))
+        m = re.search(r'impl\s+ScoreCombiner\s+for\s+DisjunctionMaxCombiner\s*\{(.*?)\n\}', text, re.S)
+        if not m:
+            raise Fail(f'{path}: impl ScoreCombiner for DisjunctionMaxCombiner not found')
+        body = re.sub(r'\s+', ' ', m.group(1))
+        want = {
+            'update': 'let score = scorer.score(); self.max = Score::max(score, self.max); self.sum += score;',
+            'clear': 'self.max = 0.0; self.sum = 0.0;',
+            'score': 'self.max + (self.sum - self.max) * self.tie_breaker',
+        }
+        for name, frag in want.items():
+            if frag not in body:
+                raise Fail(f'{path}: DisjunctionMaxCombiner::{name} is no longer `{frag}` (Model/Bm25.lean::DisMaxState mirrors it)')
+        return D('DISMAX_COMBINER_SHAPE', 1, 'DisjunctionMaxCombiner: update = (max(score, max), sum + score); clear = (0, 0); score = max + (sum - max) * tie_breaker')
+    items.append(dismax)
